@@ -54,13 +54,22 @@ func connectCallback(n *NSQD, hostname string) func(*lookupPeer) {
 		var commands []*nsq.Command
 		n.RLock()
 		for _, topic := range n.topicMap {
+			// a topic/channel that is being deleted is still in its map while its
+			// UNREGISTER is sent: registering it again here would leave it listed
+			if topic.Exiting() {
+				continue
+			}
 			topic.RLock()
-			if len(topic.channelMap) == 0 {
-				commands = append(commands, nsq.Register(topic.name, ""))
-			} else {
-				for _, channel := range topic.channelMap {
-					commands = append(commands, nsq.Register(channel.topicName, channel.name))
+			registered := 0
+			for _, channel := range topic.channelMap {
+				if channel.Exiting() {
+					continue
 				}
+				commands = append(commands, nsq.Register(channel.topicName, channel.name))
+				registered++
+			}
+			if registered == 0 {
+				commands = append(commands, nsq.Register(topic.name, ""))
 			}
 			topic.RUnlock()
 		}
